@@ -69,6 +69,22 @@ pub fn c10(r: &mut Rng, sz: &Sizes, out: &mut Vec<String>) {
         out.push(format!("similar\t{}\t{}", sx(&a), sx(&b)));
         out.push(format!("p_similar\t{}\t{}\t!ok", sx(&a), sx(&b)));
     }
+    // deep chains of every container kind and flag, up to and beyond the deepest shape a document can
+    // produce (256 brackets): a depth-dependent slip shows only here
+    for ctor in 0..4 {
+        for opt in [false, true] {
+            for depth in [8usize, 64, 255, 256, 257, 300] {
+                let s = chain(ctor, opt, depth);
+                let o = json_shape::verif::as_optional(s.clone());
+                out.push(format!("subset\t{}\t{}\t!true", sx(&s), sx(&s)));
+                out.push(format!("subset\t{}\t{}\t!true", sx(&s), sx(&o)));
+                out.push(format!("p_similar\t{}\t{}\t!ok", sx(&s), sx(&o)));
+                if opt {
+                    out.push(format!("subset\tN\t{}\t!true", sx(&s)));
+                }
+            }
+        }
+    }
 }
 
 pub fn c02(r: &mut Rng, sz: &Sizes, out: &mut Vec<String>) {
@@ -311,6 +327,19 @@ pub fn c03(r: &mut Rng, sz: &Sizes, out: &mut Vec<String>) {
         let hexes: Vec<String> = h.iter().map(|d| hex_doc(d, r.below(4))).collect();
         out.push(format!("p_c03\t{}\t!ok", hexes.join("\t")));
     }
+    // documents as deep as the parser accepts, alone and merged with a sibling of another leaf kind
+    for (open, close) in [("[", "]"), ("{\"a\":", "}"), ("[{\"a\":", "}]")] {
+        let per = open.matches(['[', '{']).count();
+        for depth in [100usize, 254, 255, 256] {
+            let k = depth / per;
+            let d1 = format!("{}1{}", open.repeat(k), close.repeat(k));
+            let d2 = format!("{}\"s\"{}", open.repeat(k), close.repeat(k));
+            let hx = |t: &str| crate::wire::hex(t.as_bytes());
+            out.push(format!("p_c03\t{}\t!ok", hx(&d1)));
+            out.push(format!("p_c03\t{}\t{}\t!ok", hx(&d1), hx(&d2)));
+            out.push(format!("p_c03\t{}\tnull\t{}\t!ok", hx(&d1), hx(&d2)).replace("\tnull\t", &format!("\t{}\t", hx("null"))));
+        }
+    }
 }
 
 /// shapes as single-document inference produces them, from random documents and their parts
@@ -409,6 +438,21 @@ pub fn c12(r: &mut Rng, sz: &Sizes, out: &mut Vec<String>) {
     for (a, b) in pairs(r, sz) {
         out.push(format!("ticks_subset\t{}\t{}", sx(&a), sx(&b)));
         out.push(format!("ticks_merger\t{}\t{}", sx(&a), sx(&b)));
+    }
+    // one nesting family per container kind and flag: a doubled recursive call is exponential in exactly
+    // one of them
+    for ctor in 0..4 {
+        for opt in [false, true] {
+            for depth in [2usize, 4, 8, 12, 16, 20] {
+                let s = chain(ctor, opt, depth);
+                let o = json_shape::verif::as_optional(s.clone());
+                let t = chain(ctor, !opt, depth);
+                for (a, b) in [(&s, &s), (&s, &o), (&s, &t), (&t, &s)] {
+                    out.push(format!("ticks_subset\t{}\t{}", sx(a), sx(b)));
+                    out.push(format!("ticks_merger\t{}\t{}", sx(a), sx(b)));
+                }
+            }
+        }
     }
     let (samples, parts) = reachable(r, 800);
     for _ in 0..sz.pairs {
